@@ -183,6 +183,17 @@ CLAIMS = {
              "19 defect classes at random applicable positions of three-file programs and is labelled bounded.",
         technique="VCs (pyvc mode F) with fold specifications on the detector functions; generated valid/defective programs as bounded stand-in",
         design="3/C07"),
+    "C11": dict(
+        text="Narrow layer: FortranAST.add_doc and the documentation steps of add_variable/add_scope (VCs with a ghost map from "
+             "entity to its documentation: a forward block is consumed by exactly the next entity, any other block lands on the "
+             "last entity only, nothing stays pending); structural obligations on parse_docs/get_docstring (block boundaries) and "
+             "on the active-parameter computation of serve_signature. Equivalence of the hover text with the source declaration, "
+             "procedure hovers and the active parameter are decided only on declarations generated from a grammar with a known "
+             "ground truth (bounded stand-in, not proof).",
+        note="declaration-text equivalence needs a Fortran declaration grammar as specification; the regex pipeline is covered "
+             "by the generator only.",
+        technique="VCs (pyvc mode F) with ghost documentation map; structural obligations; generated-declaration hover/signature oracle as bounded stand-in",
+        design="3/C11"),
     "C12": dict(
         text="Filter layer: the prefix filter of serve_autocomplete.get_candidates (VCs on a mechanical slice of the real "
              "nested function, loop invariant with fold specification) keeps exactly the candidates whose renamed or own "
